@@ -14,8 +14,8 @@ post-start failure)):
              LoadModuleByID (apps map entry before Provision; immediate Cleanup of a module
              whose Provision / Validate failed; moduleInstances entry only on success)
   logging.go openLogs / openWriter (`writers` usage pool) / closeLogs
-  modules/caddyhttp/app.go  Start binds the listeners one by one and returns on the first
-             error WITHOUT closing the ones it already bound (finding F2)
+  modules/caddyhttp/app.go  Start binds the listeners one by one; on the first error it closes
+             the ones it already bound (abortStart; former finding F2, fixed) and returns
   listeners.go / listen_unix.go  every bind is one more socket on the address (SO_REUSEPORT)
              and one more reference in listenerPool; closing drops both.
 
@@ -335,15 +335,26 @@ def bindAll (cid : Nat) (a : App) (blocked : List Nat) : List Nat → State → 
 def closeApp (cid name : Nat) (s : State) : State :=
   { s with socks := s.socks.filter (fun k => !(k.cid == cid && k.app == name)) }
 
-/-- App.Start. Probe app: tidy (closes what it bound before returning an error).
-    HTTP app (modules/caddyhttp/app.go:504-537): returns the bind error, nothing is closed. -/
+/-- App.Start. Both kinds of app release what they bound before reporting a failure: the probe
+    apps by construction, the HTTP app (modules/caddyhttp/app.go) since the fix that made Start
+    call abortStart — it closes the servers it has started, and with them every listener it has
+    bound so far. (`startAppOld` below is the HTTP app's Start before that fix.) -/
 def startApp (cid : Nat) (blocked : List Nat) (a : App) (s : State) : State × Bool :=
-  if a.isHttp then bindAll cid a blocked a.listen s
+  if a.isHttp then
+    match bindAll cid a blocked a.listen s with
+    | (s', true) => (s', true)
+    | (s', false) => (closeApp cid a.name s', false)
   else if a.fault = 5 then (evA s [.start cid a.name, .startFail cid a.name], false)
   else
     match bindAll cid a blocked a.listen (evA s [.start cid a.name]) with
     | (s', true) => (evA s' [.started cid a.name], true)
     | (s', false) => (evA (closeApp cid a.name s') [.startFail cid a.name], false)
+
+/-- the HTTP app's Start BEFORE the fix: it returned the bind error of its k-th listener without
+    closing listeners 1‥k-1, which stayed bound and serving (former finding F2). Kept for the
+    non-vacuity theorem `load_atomic_old_code_fails`. -/
+def startAppOld (cid : Nat) (blocked : List Nat) (a : App) (s : State) : State × Bool :=
+  if a.isHttp then bindAll cid a blocked a.listen s else startApp cid blocked a s
 
 def stopApp (cid : Nat) (a : App) (s : State) : State :=
   if a.isHttp then closeApp cid a.name s
